@@ -55,6 +55,7 @@ class Summary:
     def __init__(self, body, I, outs, params):
         self.body = body
         self.paths = [Path(s, r) for s, r in outs]
+        self.diverged = [Path(s, ('unk', 'diverged')) for s in I.diverged]
         self.notes = list(I.notes)
         self.unmodelled = dict(I.unmodelled)
         self.params = params
